@@ -10,6 +10,9 @@ REPLAYS = os.path.join(ROOT, "replays")
 GOENV = dict(os.environ, GOFLAGS="-mod=mod", GOPROXY="off", GOSUMDB="off", GOTOOLCHAIN="local",
              CGO_ENABLED=os.environ.get("CGO_ENABLED", "1"))
 
+# many coqc processes in parallel contend on page faults in this VM unless the OCaml heap grows in small steps
+COQENV = dict(os.environ, OCAMLRUNPARAM=os.environ.get("OCAMLRUNPARAM", "s=512k,i=2M"))
+
 from props import PROPS  # per-property configuration
 
 TRUSTED_BASE = [
@@ -144,7 +147,7 @@ def parse_list_after(out, name):
 def eval_shard(path):
     d, f = os.path.dirname(path), os.path.basename(path)
     t0 = time.time()
-    rc, out = sh(["timeout", "900", "coqc", "-Q", COQ, "Flyt", f], cwd=d)
+    rc, out = sh(["timeout", "900", "coqc", "-Q", COQ, "Flyt", f], cwd=d, env=COQENV)
     res = {"shard": f, "rc": rc, "wall": time.time() - t0, "bad": [], "ctl": None, "out": out[-3000:]}
     if rc != 0:
         return res
